@@ -402,7 +402,10 @@ func (g *gen) action(flowType string, flowUUIDs []string, flowNames []string) M 
 			a["headers"] = M{"Authorization": "Token @globals.org_name", "X-Name": "@contact.name", "Accept": "application/json"}
 			if rapid.IntRange(0, 2).Draw(g.t, "errheaders") == 0 {
 				// several header templates that log an error or a deprecation warning each
-				a["headers"] = M{"X-Div": "@(1 / 0)", "X-Missing": "@contact.fields.missing", "X-Name": "@contact.name", "X-Legacy": "@legacy_extra", "X-Unclosed": "@(foo"}
+				a["headers"] = M{"X-Div": "@(1 / 0)", "X-Missing": "@contact.fields.missing", "X-Name": "@contact.name", "X-Unclosed": "@(foo"}
+				if g.o.WebhookRefs {
+					a["headers"].(M)["X-Legacy"] = "@legacy_extra" // only where @webhook/@legacy_extra references are wanted (not C02)
+				}
 			}
 		}
 		if rapid.IntRange(0, 3).Draw(g.t, "whresult") > 0 {
@@ -813,3 +816,6 @@ func StaticGroups() []M { return staticGroups }
 
 // Channels returns the fixed channels.
 func Channels() []M { return channels }
+
+// MsgTemplates returns the message template assets.
+func MsgTemplates() []M { return msgTemplates }
